@@ -663,7 +663,7 @@ impl Formatter {
         if self.html {
           format!("<span class=\"mech-inline-mech-code-formatted\">{}</span>", result)
         } else {
-          format!("{{{}}}", result)
+          format!("{{{{{}}}}}", result.trim_end_matches('\n'))
         }
       },
       ParagraphElement::EvalInlineMechCode(expr) => {
